@@ -777,3 +777,30 @@ def f_every_static_opcode():
         out.append("DUP%d" % k)
         out.append("SWAP%d" % k)
     return out
+
+
+def f_keccak_pairs():
+    """two KECCAK256 in one block: same offset with different lengths, different offsets with the same length, constant and
+    stack operands, with and without a store in between -- two hashes may be merged only if offset AND length agree and no
+    byte of the range was written in between"""
+    out = []
+    offs = ["PUSH 0", "PUSH 80", "DUP3"]
+    lens = ["PUSH 20", "PUSH 40", "DUP4"]
+    mids = ["", "DUP5 PUSH 80 MSTORE", "DUP5 PUSH 9f MSTORE8", "DUP5 DUP5 MSTORE"]
+    for o1 in offs:
+        for l1 in lens:
+            for o2 in offs:
+                for l2 in lens:
+                    if (o1, l1) == (o2, l2) and o1 != "PUSH 80":
+                        continue
+                    for mid in mids:
+                        if mid and not (o1 == o2):
+                            continue
+                        # after the first hash one more item is on the stack: DUPs of the second hash reach one deeper
+                        def bump(t):
+                            return "DUP%d" % (int(t[3:]) + 1) if t.startswith("DUP") else t
+                        m = " ".join(bump(x) if x.startswith("DUP") else x for x in mid.split(" ")) if mid else ""
+                        m = m.replace("DUP6 DUP6 MSTORE", "DUP6 DUP5 MSTORE") if m else m
+                        out.append(" ".join(x for x in [l1, o1 if not o1.startswith("DUP") else bump(o1), "KECCAK256", m,
+                                                        bump(l2), bump(bump(o2)) if o2.startswith("DUP") else o2, "KECCAK256"] if x))
+    return list(dict.fromkeys(out))
